@@ -183,7 +183,7 @@ def rule_graph_game(prog: Program, col: Collector) -> None:
     gvs = mm["get_values"]
     rv = list(fterms(prog, gvs).of_kind("return"))
     okv = len(rv) == 1 and is_call_to(rv[0].value, "numpy.fromiter", "numpy.array") and any(
-        is_call_to(s, "map") and s[2] and s[2][0] == ("attr", SELF, "get_value") for s in subterms(rv[0].value))
+        s[0] == "comp" and len(s[3]) == 1 and not s[3][0][2] and s[2] == ("call", ("attr", SELF, "get_value"), (s[3][0][0],), ()) for s in subterms(rv[0].value))
     col.check(okv, gvs.where(), gvs.short, "get_values maps get_value over the requested coalitions (all coalitions in id order by default)", construct="graph-values", necessity="get_values must list get_value over the requested (or all) coalitions in order")
 
 
